@@ -702,7 +702,6 @@ func (w *TreeWalker) Next() (name string, entry TreeEntry, err error) {
 		name = simpleJoin(w.base, entry.Name)
 
 		if err != nil {
-			err = io.EOF
 			return name, entry, err
 		}
 
